@@ -1136,6 +1136,12 @@ def apply(ex, ctx, st, f, args, dest_ty, term):
             R = 'core::result::Result'
             return map_ite(o, lambda l: agg(('adt', R, pdb.variant_index(R, 'Ok')), (l[2][0],)) if l[1][2] == 1
                            else agg(('adt', R, pdb.variant_index(R, 'Err')), (args[1],))), st
+        if name == 'zip':
+            def z1_(la):
+                if la[1][2] != 1:
+                    return OPTION_NONE
+                return map_ite(args[1], lambda lb: option_some(agg(('tuple',), (la[2][0], lb[2][0]))) if lb[1][2] == 1 else OPTION_NONE)
+            return map_ite(o, z1_), st
         raise Uncertified("Option::%s" % name)
 
     if dpath == 'core::convert::TryFrom::try_from' and path.startswith('core::convert::num::'):
@@ -1360,11 +1366,29 @@ def apply(ex, ctx, st, f, args, dest_ty, term):
             l[i[1]], l[j[1]] = l[j[1]], l[i[1]]
         ex.store(st, args[0], mk('agg', arr[1], tuple(l)))
         return UNIT, st
-    if path in ('core::slice::<impl [T]>::first', 'core::slice::<impl [T]>::last'):
+    if path in ('core::slice::<impl [T]>::first', 'core::slice::<impl [T]>::last', 'core::slice::<impl [T]>::first_mut', 'core::slice::<impl [T]>::last_mut'):
         elems = slice_elems(ex, st, args[0])
         if not elems:
             return OPTION_NONE, st
-        return option_some(elems[0] if name == 'first' else elems[-1]), st
+        return option_some(elems[0] if name.startswith('first') else elems[-1]), st
+    if path == 'core::slice::<impl [T]>::get_mut' and args[1][0] == 'c' and ty_of(args[1]) == 'usize':
+        elems = slice_elems(ex, st, args[0])
+        return (option_some(elems[args[1][1]]) if args[1][1] < len(elems) else OPTION_NONE), st
+    if path in ('core::iter::once', 'core::iter::sources::once::once'):
+        return m_iter('ArrayIter', agg(('array',), [args[0]]), C(0, 'usize')), st
+    if path in ('core::option::Option::<T>::zip',):
+        def z1(la):
+            if la[1][2] != 1:
+                return OPTION_NONE
+            return map_ite(args[1], lambda lb: option_some(agg(('tuple',), (la[2][0], lb[2][0]))) if lb[1][2] == 1 else OPTION_NONE)
+        return map_ite(args[0], z1), st
+    if int_method('midpoint'):
+        a, b = args
+        ty = ty_of(a)
+        if ty not in INT_BITS or is_signed(ty) or INT_BITS[ty] > 64:
+            raise Uncertified("midpoint on %s" % ty)
+        wide = mk_bin('Add', mk_cast(a, 'u128'), mk_cast(b, 'u128'), 'u128', 'u128')
+        return mk_cast(mk_bin('Shr', wide, C(1, 'u32'), 'u128', 'u128'), ty), st
     if path == 'core::slice::<impl [T]>::get':
         i = args[1]
         arr0 = ex.load(st, args[0])
